@@ -24,7 +24,7 @@ EXPLANATION = (
     "(maxcol,) of the box width (the rows shown are the items' renderings at that width); (11) SIB: render() compares the rows calculate_visible reported with the "
     "rows actually rendered for all three groups (above, focus, below); (12) SIB: the two bundled walkers step positions with identical next_position / "
     "prev_position / positions; (13) FOCUS-FWD and OPTCALL restricted to listbox.py (the focus flag reaches the focus item; optional child methods are called "
-    "under hasattr); (14) BOUND: the walker clamps its focus index to len - 1 under `index >= len` (a focus left one past the end makes the ListBox render blank although items remain); (15) SENTINEL: walker results are compared with None by identity (an empty container item is falsy but is a widget); (16) GUARD: a paging candidate reaches change_focus() with its own offset only where the tests on the way entail row_offset + rows > 0 - linear atoms, per reaching definition of the offset (fix 15a2acb: page down tried items scrolled off the top and raised ListBoxError)."
+    "under hasattr); (14) BOUND: the walker clamps its focus index to len - 1 under `index >= len` (a focus left one past the end makes the ListBox render blank although items remain); (15) SENTINEL: walker results are compared with None by identity (an empty container item is falsy but is a widget); (16) GUARD: a paging candidate reaches change_focus() with its own offset only where the tests on the way entail row_offset + rows > 0 - linear atoms, per reaching definition of the offset (fix 15a2acb: page down tried items scrolled off the top and raised ListBoxError); (17) FLAG-FWD: a ListBox method that was given the focus flag lays the box out with it (mouse_event located the item under the pointer in the focused layout of an unfocused box)."
 )
 NOT_DECIDED = (
     "That the window is gap-free and contains the focus for every history (arithmetic over offset_rows / inset_fraction / item heights), snapping and paging "
@@ -272,6 +272,29 @@ def rule_candidate_on_page(ctx: Ctx) -> RuleResult:
     return rr
 
 
+def rule_layout_with_own_flag(ctx: Ctx) -> RuleResult:
+    """calculate_visible(size, focus) does not only measure: with focus=True it moves the focus widget so that its
+    cursor row is inside the box.  A method that was told the box's focus state and lays the box out to locate
+    something in what is *displayed* (mouse_event: which item is under the pointer) has to ask with that flag - with a
+    constant True an unfocused box is laid out as if focused, the rows differ from the rows on screen and the click
+    goes to another item.  Every ListBox method with a `focus` parameter passes it to self.calculate_visible().
+    Before fix fdbf670 mouse_event passed focus=True: a click on the row showing b1 in an unfocused box went to the Edit."""
+    p = ctx.p
+    rr = RuleResult("FLAG-FWD", "C07.17", "a ListBox method that received the box's focus flag lays the box out (calculate_visible) with that flag, not with a constant", floor=3)
+    for fi in p.all_class_functions(p.cls(LB)):
+        if "focus" not in fi.params or fi.is_lambda:
+            continue
+        for c in fi.own_nodes():
+            if not (isinstance(c, ast.Call) and isinstance(c.func, ast.Attribute) and c.func.attr == "calculate_visible" and isinstance(c.func.value, ast.Name) and c.func.value.id == fi.self_name):
+                continue
+            a = c.args[1] if len(c.args) > 1 else next((k.value for k in c.keywords if k.arg == "focus"), None)
+            ok = isinstance(a, ast.Name) and a.id == "focus"
+            rr.inst(f"{short(fi)}: {norm(c, 50)}", True, {"caller": short(fi), "call": norm(c, 60), "focus_argument": ast.unparse(a) if a is not None else None})
+            if not ok:
+                rr.add(finding("FLAG-FWD", fi, c, f"`{norm(c, 60)}` lays the box out with `{ast.unparse(a) if a is not None else 'the default False'}` although {fi.name}() was given the box's focus flag: calculate_visible() shifts the focus widget to keep its cursor row inside only when focused, so the layout used here is not the one on screen - {fi.name}() locates another item than the one displayed at that row", construct=f"{fi.name}: calculate_visible with a constant focus flag"))
+    return rr
+
+
 def run(ctx: Ctx):
     p = ctx.p
     from . import c01, c08, c09
@@ -296,6 +319,7 @@ def run(ctx: Ctx):
         fwd.run_fwd(p, "C07.13a", ("urwid.widget.listbox",), floor=10, description="ListBox passes the focus flag it receives on to every callee that takes one (the focus item is measured and drawn focused, the cursor row is the focused one)"),
         optcall.run_optcall(p, "C07.13b", ("urwid.widget.listbox",), floor=5),
         rule_candidate_on_page(ctx),
+        rule_layout_with_own_flag(ctx),
     ]
 
 
@@ -303,6 +327,7 @@ from ..mutants import Mut  # noqa: E402
 
 _L = "urwid/widget/listbox.py"
 MUTANTS = [
+    Mut("listbox-mouse-layout-as-if-focused", _L, "ListBox.mouse_event", "self.calculate_visible((maxcol, maxrow), focus=focus)", "self.calculate_visible((maxcol, maxrow), focus=True)", "FLAG-FWD|widget.listbox.ListBox.mouse_event|mouse_event: calculate_visible with a constant focus flag"),
     Mut("page-down-tries-candidate-off-the-top", _L, "ListBox._keypress_page_down", "            if row_offset + rows <= 0:\n                # scrolled off the top edge entirely: not on the new page\n                continue\n", "", "GUARD|widget.listbox.ListBox._keypress_page_down|_keypress_page_down: candidate offset row_offset not shown on the page"),
     Mut("page-down-fallback-tries-candidate-off-the-top", _L, "ListBox._keypress_page_down", "            if row_offset + rows <= 0:  # nor one that is off the top edge entirely\n                continue\n", "", "GUARD|widget.listbox.ListBox._keypress_page_down|_keypress_page_down: candidate offset row_offset not shown on the page"),
     Mut("page-up-fallback-edge-off-by-one", _L, "ListBox._keypress_page_up", "            if rows + row_offset <= 0:\n                snap_rows -= (-row_offset) - (rows - 1)", "            if rows + row_offset < 0:\n                snap_rows -= (-row_offset) - (rows - 1)", "GUARD|widget.listbox.ListBox._keypress_page_up|_keypress_page_up: candidate offset row_offset not shown on the page"),
